@@ -138,7 +138,7 @@ def run(ck):
     check_free(ck, view)
     if flag is not None:
         check_gated_inventory(ck, view, flag)
-    if ck.tier == "thorough":
+    if True:   # both tiers: the `profile` feature swaps in `new_profiled`, a second constructor of the same circuit
         prog2 = ck.extract("profile")
         v2 = leaf.LeafView(ck, prog2, entry=r"WormholeCircuit::new_profiled$")
         f2 = check_flag(ck, v2, "profile:")
